@@ -498,21 +498,26 @@ func (p *Parser) parseBuild(call *ast.CallExpr, funcDecl *ast.FuncDecl, info *ty
 
 // extractTypeFromNew extracts the type from new(T) expression.
 func (p *Parser) extractTypeFromNew(expr ast.Expr, info *types.Info) types.Type {
-	call, ok := expr.(*ast.CallExpr)
-	if !ok {
+	expr = ast.Unparen(expr)
+
+	var newArg ast.Expr
+	if call, ok := expr.(*ast.CallExpr); ok && len(call.Args) == 1 {
+		if ident, ok := call.Fun.(*ast.Ident); ok && ident.Name == "new" {
+			newArg = call.Args[0]
+		}
+	}
+	if newArg == nil {
+		// wire only looks at the argument's type: the older spelling (*T)(nil) means the
+		// same as new(T)
+		if tv, ok := info.Types[expr]; ok {
+			if ptr, isPtr := tv.Type.(*types.Pointer); isPtr {
+				return ptr
+			}
+		}
 		return nil
 	}
 
-	ident, ok := call.Fun.(*ast.Ident)
-	if !ok || ident.Name != "new" {
-		return nil
-	}
-
-	if len(call.Args) != 1 {
-		return nil
-	}
-
-	if tv, ok := info.Types[call.Args[0]]; ok {
+	if tv, ok := info.Types[newArg]; ok {
 		return types.NewPointer(tv.Type)
 	}
 
